@@ -46,6 +46,7 @@ struct Options {
   std::string root2;
   std::string fileRe;
   std::string nameRe;
+  std::string classRe;
   bool mainOnly = false;
   bool noCfg = false;
 };
@@ -251,6 +252,13 @@ public:
       J.attribute("qn", D->getQualifiedNameAsString());
     if (!isa<FunctionDecl>(D))
       J.attribute("t", typeStr(D->getType(), Ctx));
+    // constant keyword strings: `const char* kw = "text";` at namespace/class scope
+    if (auto *VD = dyn_cast<VarDecl>(D))
+      if (!VD->isLocalVarDecl() && !isa<ParmVarDecl>(VD))
+        if (const Expr *Init = VD->getAnyInitializer())
+          if (auto *SL = dyn_cast<StringLiteral>(Init->IgnoreParenImpCasts()))
+            if (SL->isAscii() || SL->isUTF8())
+              J.attribute("sv", SL->getString());
   }
 
   void child(const Stmt *S) { emit(S); }
@@ -809,6 +817,8 @@ public:
       FileRe = std::make_unique<llvm::Regex>(Opt.fileRe);
     if (!Opt.nameRe.empty())
       NameRe = std::make_unique<llvm::Regex>(Opt.nameRe);
+    if (!Opt.classRe.empty())
+      ClassRe = std::make_unique<llvm::Regex>(Opt.classRe);
   }
   bool shouldVisitTemplateInstantiations() const { return true; }
   bool shouldVisitImplicitCode() const { return false; }
@@ -816,7 +826,7 @@ public:
   ASTContext &Ctx;
   const SourceManager &SM;
   json::OStream &J;
-  std::unique_ptr<llvm::Regex> FileRe, NameRe;
+  std::unique_ptr<llvm::Regex> FileRe, NameRe, ClassRe;
   std::set<const FunctionDecl *> Done;
   std::vector<const CXXRecordDecl *> Classes;
   std::set<const CXXRecordDecl *> ClassSeen;
@@ -995,8 +1005,11 @@ public:
   void emitClasses() {
     for (const CXXRecordDecl *RD : Classes) {
       std::string QName = RD->getQualifiedNameAsString();
-      if (NameRe && !NameRe->match(QName))
-        continue;
+      if (ClassRe) {
+        if (!ClassRe->match(QName))
+          continue;
+      } else if (NameRe)
+        continue;   // function-filtered extraction: no class records unless asked for
       J.objectBegin();
       J.attribute("q", QName);
       J.attribute("n", RD->getNameAsString());
@@ -1187,6 +1200,8 @@ int main(int argc, const char **argv) {
       Opt.fileRe = argv[++i];
     } else if (A == "--name-re" && i + 1 < argc) {
       Opt.nameRe = argv[++i];
+    } else if (A == "--class-re" && i + 1 < argc) {
+      Opt.classRe = argv[++i];
     } else if (A == "--main-only") {
       Opt.mainOnly = true;
     } else if (A == "--no-cfg") {
